@@ -726,7 +726,7 @@ fn default_runs(kind: SimKind, tier: &str) -> u64 {
         (SimKind::Terms, "quick") => 80_000,
         (SimKind::Terms, _) => 4_000_000,
         (SimKind::Sessions, "quick") => 60_000,
-        (SimKind::Sessions, _) => 5_000_000,
+        (SimKind::Sessions, _) => 3_000_000,
     }
 }
 
